@@ -632,6 +632,8 @@ class WrittenFile(Spec):
     writer's AST is executed and its text becomes the file; natively the
     writer is called and the text written to a temporary file."""
 
+    computed = True
+
     def __init__(self, writer, arg_names, **const_kwargs):
         self.writer = writer
         self.arg_names = arg_names          # {writer kwarg: contract arg name}
